@@ -234,14 +234,14 @@ def _steps_st():
 
 def sub_tracks(ctx, shard, n):
     strat = st.fixed_dictionaries({"track": SG.track_st(_cfg()), "steps": _steps_st()})
-    ctx.given("track", check_track, strat, 300 if ctx.quick else 2000)
+    ctx.given("track", check_track, strat, 300 if ctx.quick else 5000)
 
 
 def sub_special_tracks(ctx, shard, n):
     chord = st.sampled_from(["C", "Am", "G7", "F", "Dm7", "C", "C"]) | st.none()
     chordlist = st.lists(st.recursive(chord, lambda c: st.lists(c, min_size=1, max_size=3), max_leaves=4), min_size=2, max_size=6)
     from_chords = st.fixed_dictionaries({"chords": chordlist, "duration": st.sampled_from([1, 2, 4]), "steps": _steps_st()})
-    ctx.given("track", check_track, from_chords, 150 if ctx.quick else 1500)
+    ctx.given("track", check_track, from_chords, 150 if ctx.quick else 4000)
     # melodic sequences followed by a history that starts with the same interval at track level
     def mk(td, sh, up, count, more):
         first = ["transpose", "track", 0, 0, sh, up]
@@ -249,7 +249,7 @@ def sub_special_tracks(ctx, shard, n):
     seq = st.builds(mk, SG.track_st(SG.Cfg(octaves=[3, 4, 5], max_bars=1, max_groups=4, instruments=["none"], max_chord=3, max_pitch=200,
                                            names=T.unmixed_names(1))),
                     st.sampled_from(["2", "b2", "3", "b3", "4", "5", "1", "#1"]), st.booleans(), st.integers(1, 3), _steps_st())
-    ctx.given("track", check_track, seq, 150 if ctx.quick else 1500)
+    ctx.given("track", check_track, seq, 150 if ctx.quick else 4000)
 
 
 SUBS = [
